@@ -2,6 +2,7 @@ import Lean.Data.Json
 import XModel.Manager
 import XModel.Acyclic
 import XModel.ManagerC13
+import XModel.ManagerFn
 /-! JSON codec shared by the driver suites (Appendix A of DESIGN.md).  Total: malformed input is
     `none`, never defaulted. -/
 namespace Codec
